@@ -91,6 +91,8 @@ class StackFx:
         self.w = w
         self._memo = {}
         self.guards = set(w.exc.guards) if hasattr(w, 'exc') else {'sert', 'vert', 'tert', 'yert'}
+        from .feval import module_consts
+        self.consts = module_consts(w.repo, 'functions')     # named integer constants and enum members
 
     # ------------------------------------------------------------------
     def effect(self, hname: str, operands: tuple = ()):
@@ -185,7 +187,12 @@ class StackFx:
                 return ('operand', int.from_bytes(e.value, 'big') if len(e.value) <= 8 else None, len(e.value))
             return None
         if isinstance(e, ast.Name):
-            return st.env.get(e.id)
+            v = st.env.get(e.id)
+            if v is None and e.id not in st.env:
+                c = self.consts(e.id)
+                if isinstance(c, int):
+                    return int(c)
+            return v
         if isinstance(e, ast.BinOp):
             l, r = self.ev(e.left, st, cx), self.ev(e.right, st, cx)
             if isinstance(l, int) and isinstance(r, int):
@@ -296,7 +303,8 @@ class StackFx:
             return None
         if isinstance(e, ast.Attribute):
             self.ev(e.value, st, cx) if not isinstance(e.value, ast.Name) else None
-            return None
+            c = self.consts(ast.unparse(e))
+            return int(c) if isinstance(c, int) else None
         if isinstance(e, ast.Dict):
             pairs = []
             ok = True
@@ -360,6 +368,23 @@ class StackFx:
         inner = [e.elt] if not isinstance(e, ast.DictComp) else [e.key, e.value]
         parts = inner + list(g.ifs) + [x for gg in e.generators[1:] for x in [gg.iter] + list(gg.ifs)]
         touches = any(self._mentions_vm(x, cx) for x in parts)
+        if not touches and isinstance(e, ast.DictComp) and len(e.generators) == 1 and not g.ifs and \
+                isinstance(g.target, ast.Name) and isinstance(g.iter, ast.Call) and dotted(g.iter.func) == 'range':
+            # a table built by comprehension over a known range: the same value as the display it spells out
+            from .feval import feval, Unknown
+            vals = [self.ev(a, st, cx) for a in g.iter.args]
+            if vals and all(isinstance(v, int) for v in vals) and len(range(*vals)) <= 64:
+                pairs = []
+                ienv = {k: v for k, v in st.env.items() if isinstance(v, int)}
+                try:
+                    for i in range(*vals):
+                        key = feval(e.key, dict(ienv, **{g.target.id: i}), self.consts)
+                        st2 = st.copy()
+                        st2.env[g.target.id] = i
+                        pairs.append((key, self.ev(e.value, st2, cx)))
+                    return ('dict', tuple(pairs))
+                except (Unknown, TypeError, ValueError):
+                    pass
         if not touches:
             return ('len', n) if (isinstance(n, int) and not g.ifs and len(e.generators) == 1) else None
         if n is None or g.ifs or len(e.generators) != 1:
@@ -381,6 +406,13 @@ class StackFx:
             if len(vals) == 3 and vals[2]:
                 return len(range(*vals))
             return None
+        # itertools.repeat(x, n): n elements;  enumerate(X) / reversed(X) / list(X) / tuple(X) / sorted(X): as many as X
+        if isinstance(it, ast.Call) and (dotted(it.func) or '').split('.')[-1] == 'repeat' and len(it.args) == 2:
+            self.ev(it.args[0], st, cx)
+            n = self.ev(it.args[1], st, cx)
+            return max(0, n) if isinstance(n, int) else None
+        if isinstance(it, ast.Call) and dotted(it.func) in ('enumerate', 'reversed', 'list', 'tuple', 'sorted') and it.args:
+            return self._iter_len(it.args[0], st, cx)
         v = self.ev(it, st, cx)
         if isinstance(v, tuple) and v[0] == 'len' and isinstance(v[1], int):
             return v[1]
